@@ -9,13 +9,16 @@ CFG = dict(
          "script entry (1% of cases are launched through the real StartRun with its 50 ms ticker); every emitted block (per-channel data, first "
          "frame index, dropped frames, emitting tick) is judged by the Lean oracle on every prefix of the history and compared with the Lean "
          "model under all map iteration orders. 3% of multi-group cases use unequal frames per packet (excluded point: recorded, model must "
-         "predict the panic). Non-trivial = a gap was filled while the queue still held packets from an earlier tick (the mechanism's weak "
+         "predict the panic). Restart histories (110 quick / 1500 thorough extra cases): run 1 (usually cut short while a group lags, so packets "
+         "stay queued) -> real stop path -> Sample/PrepareChannels/run 2 on the SAME AbacoSource object through the same scripted producer, with "
+         "the same groups or one removed / added / reshaped / all new; run 2's blocks are judged by chkC03 and compared with the model started "
+         "fresh (restartSt), and the channel count reported after the restart must be that of the groups seen at its start-up. Non-trivial = a gap was filled while the queue still held packets from an earlier tick (the mechanism's weak "
          "spot) or a group's queue stayed non-empty across a tick; distinct by input line. In addition 10 (quick) / 80 per job (thorough) `udp` cases "
          "drive the REAL AbacoUDPReceiver (socket on the loopback interface, its reader goroutine with the reusable 8192-byte buffer, ReadAllPackets) "
          "with 1..24 datagrams of real packets (35% with datagrams cut short so that the stale tail of the buffer completes them, and empty datagrams); "
          "the slices ReadAllPackets returns are held uncopied until the end; on clean streams the packets handed out must be the packets sent, one per "
          "datagram, in order (`C03:udp-packets-not-fifo`, theorem udp_packets_fifo), all cases are compared with Model/UdpPackets.lean.",
-    nontrivial=["leftover", "gap-behind-leftover"],
+    nontrivial=["leftover", "gap-behind-leftover", "restart-leftover"],
     jobs=seeds(1, 2),
     trusted_base=["uint32 sequence numbers modelled as Nat (guard < 2^32, sync offset <= first number)",
                   "Go map iteration order over the channel groups = explicit permutation parameter of the model (all orders tried)",
@@ -65,6 +68,8 @@ THEOREMS = [
     ("DastardV.Props.C03", "DastardV.C03.C03_dropped_count"),
     ("DastardV.Props.C03", "DastardV.C03.C03_oracle"),
     ("DastardV.Props.C03", "DastardV.C03.C03_unequal_fpp_panics"),
+    ("DastardV.Props.C03", "DastardV.C03.C03_restart_is_fresh"),
+    ("DastardV.Props.C03", "DastardV.C03.C03_restart_oracle"),
     ("DastardV.Lemmas.ComposeAbaco", "DastardV.Compose.chanSegs_catChan"),
     ("DastardV.Lemmas.ComposeAbaco", "DastardV.Compose.abaco_no_pulse_lost_packets"),
     ("DastardV.Lemmas.ComposeAbacoExcerpt", "DastardV.Compose.chanStream_blocks"),
